@@ -183,7 +183,7 @@ class Fn:
         sig = self.sig
         # R12: name the return value
         m = re.search(r'\)\s*->\s*(.+?)(\s+where\b.*)?$', sig)
-        if m and not m.group(1).startswith('('):
+        if m and not re.match(r'\(\s*\w+\s*:', m.group(1)):
             sig = sig[:m.start()] + f') -> ({self.retname}: {m.group(1)})' + (m.group(2) or '')
         sig = re.sub(r'^(pub(\([a-z]+\))?\s+)?(const\s+)?', '', sig)
         lines = [f'// @@FN:{self.qual}  <- {self.ex.file}:{self.ex.line}']
